@@ -149,7 +149,7 @@ def run_check(pid, mod, tier, seed):
                 obs = dedupe(x.explore())
                 solved = []
         except (EngineError, ExtractionError) as e:
-            if str(e).startswith("UNDECIDED") or c.fq not in REG.replays:
+            if str(e).startswith("UNDECIDED"):
                 raise
             unreadable.append((c, f"{type(e).__name__}: {e}"))
             continue
@@ -211,13 +211,26 @@ def run_check(pid, mod, tier, seed):
                 pass
             o_ = _O()
             o_.unit, o_.name, o_.kind, o_.note, o_.path = c.fq, "unreadable#contract_no_longer_fits_the_code", "bounded", why, []
-            rep = try_replay(pid, o_, {"model": None})
+            rep = try_replay(pid, o_, {"model": None}) if c.fq in REG.replays else None
             if rep and rep.get("confirmed"):
                 path = write_replay(pid, o_, {"backend": "native-battery", "verdict": "failing input (the contract could not be read against this code: " + why[:200] + ")"}, rep)
                 print(f"VIOLATION property={pid} replay={path} obligation={c.fq}/{o_.name}")
                 witnessed = True
             else:
                 print(f"CHECKER-FAILURE property={pid} {why}")
+        # the property's bounded stand-ins ran on the changed code as well: a failing input they found (outside every known
+        # finding) is reported too - the unreadable contract alone never is
+        known_b = [k for k in load_known_findings() if k.get("property") == pid and k.get("status", "open") == "open"]
+        for br in bounded_results:
+            for fl in br.get("failures", [])[:3]:
+                if any(k.get("obligation") == br["name"] and (k.get("witness_input") == fl.get("input") or (fl.get("known_finding") and k.get("id") == fl.get("known_finding"))) for k in known_b):
+                    continue
+                o_ = Obligation(br["name"], [], None, "bounded", [], "bounded", note=fl.get("clause", ""))
+                path = write_replay(pid, o_, {"verdict": "bounded-counterexample", "model": None, "backend": "bounded", "detail": json.dumps(fl, default=str)[:1500]},
+                                    {"confirmed": True, "function": br["name"], "inputs": fl.get("input"), "observed": fl})
+                print(f"VIOLATION property={pid} replay={path} obligation=bounded/{br['name']}")
+                witnessed = True
+                break
         write_evidence(pid, tier, seed, {"obligations": 0, "discharged": 0, "checker_cmd": f"./check {pid} --tier {tier}", "trusted_base": [],
                                          "explanation": "a contract no longer fits the code: " + "; ".join(w for _c, w in unreadable)[:1500]},
                        time.time() - t0, 1 if witnessed else 0, status="violation" if witnessed else "checker-failure")
